@@ -582,7 +582,7 @@ def run(ctx):
                 # quick tier: the 3-file cases are replayed as a stratified subset (every k-th of each form class)
                 cls = (rec["hs"]["form"], rec["ks"]["form"])
                 per_class[cls] = per_class.get(cls, 0) + 1
-                stride = {("each", "each"): 40, ("none", "each"): 10, ("each", "one"): 7, ("each", "none"): 6, ("one", "each"): 4}.get(cls, 2)
+                stride = {("each", "each"): 60, ("none", "each"): 15, ("each", "one"): 10, ("each", "none"): 9, ("one", "each"): 6}.get(cls, 3)
                 if per_class[cls] % stride != 1 % stride:
                     continue
                 ents = (ENTRIES[idx % 4],)
@@ -595,7 +595,7 @@ def run(ctx):
     e2e_roots = set(g[1] for g in groups if g[0] in ("five3", "six3"))
     # end-to-end subset: same key for every file (so the inputs share one tangent plane), every hdu form, 1..3 files
     e2e = []
-    per_class = 2 if ctx.quick else 12
+    per_class = 1 if ctx.quick else 12
     seen = {}
     for r_, _i, rec, _e, _h in jobs:
         keys = set(e["key"] for e in rec["exp"])
